@@ -224,7 +224,21 @@ type Item struct {
 	Dist  bool
 	CStar bool // count(*)
 	E     Expr
-	Alias string
+	Alias string // the name of the output column (what the parser makes of the alias / the generated name)
+	// how the item is written: without AS (NoAlias), or AS SQLAlias when that differs from the column name
+	// (an alias that repeats another column's name gets a numeric suffix from the parser)
+	NoAlias  bool
+	SQLAlias string
+}
+
+func (it Item) as() string {
+	if it.NoAlias {
+		return ""
+	}
+	if it.SQLAlias != "" {
+		return " AS " + it.SQLAlias
+	}
+	return " AS " + it.Alias
 }
 
 var aggCoq = map[string]string{"count": "ACount", "sum": "ASum", "avg": "AAvg", "min": "AMin", "max": "AMax", "array_agg": "AArr"}
@@ -241,9 +255,9 @@ func (it Item) SQL() string {
 		if it.Dist {
 			arg = "DISTINCT " + arg
 		}
-		return fmt.Sprintf("%s(%s) AS %s", it.Agg, arg, it.Alias)
+		return fmt.Sprintf("%s(%s)%s", it.Agg, arg, it.as())
 	default:
-		return it.E.SQL() + " AS " + it.Alias
+		return it.E.SQL() + it.as()
 	}
 }
 func (it Item) Coq() string {
@@ -277,6 +291,7 @@ type Query struct {
 	From     Source
 	Where    Expr // nil
 	GroupBy  []Expr
+	Trigger  string // text after TRIGGER ("" = none); the relational result does not depend on it
 	OrderBy  []OrderKey
 	Limit    *int64
 }
@@ -338,6 +353,9 @@ func (q *Query) SQL(path func(string) string) string {
 			ks[i] = q.GroupBy[i].SQL()
 		}
 		b.WriteString(" GROUP BY " + strings.Join(ks, ", "))
+	}
+	if q.Trigger != "" {
+		b.WriteString(" TRIGGER " + q.Trigger)
 	}
 	if len(q.OrderBy) > 0 {
 		ks := make([]string, len(q.OrderBy))
